@@ -69,6 +69,9 @@ type CtxSpec struct {
 	NDown   int    `json:"ndown,omitempty"`
 	NBefore int    `json:"nbefore,omitempty"`
 	NAfter  int    `json:"nafter,omitempty"`
+	// Vars: variables declared on the context (config-built worlds); they never outrank a task's or
+	// a stage's variable of the same name
+	Vars map[string]string `json:"vars,omitempty"`
 }
 
 type DriverSpec struct {
